@@ -360,9 +360,19 @@ def check_c09(tier):
 
 def check_c10(tier):
     # (thorough decodes every stream under all 32 skip subsets: 8x the work per case)
-    return check_geom("C10", "c10", tier, 2000, 6000,
-                      ["skip_quantized", "skip_octahedral", "skip_kdtree_quantized", "method_mesh_edgebreaker",
-                       "method_mesh_sequential", "method_pc_sequential", "method_pc_kdtree", "att_explicit_quantization_used"])
+    t0 = time.time()
+    exes = ensure_built(["geom_pbt", "c05_corpus"])
+    res = Result()
+    run_shards(res, "C10", "geom_pbt", exes["geom_pbt"], "c10", tier, 16, 2000 if tier == "quick" else 6000)
+    # stored streams: the legacy decoders read transform parameters in version-gated branches no generated stream reaches
+    dirs = "%s:%s" % (os.path.join(VERIF, "corpus", "legacy"), os.path.join(VERIF, "corpus", "frozen"))
+    run_shards(res, "C10", "c05_corpus", exes["c05_corpus"], "c10", tier, 16, 1,
+               extra_env={"VERIF_CORPUS_DIRS": dirs, "VERIF_REPO": REPO})
+    res.required_classes = ["skip_quantized", "skip_octahedral", "skip_kdtree_quantized", "method_mesh_edgebreaker",
+                            "method_mesh_sequential", "method_pc_sequential", "method_pc_kdtree",
+                            "att_explicit_quantization_used", "c10_corpus_octahedral", "c10_corpus_quantized",
+                            "c10_corpus_version_1.1", "c10_corpus_version_2.2"]
+    return finish("C10", tier, res, t0, assumptions=GEOM_ASSUME)
 
 
 def check_c04(tier):
@@ -450,7 +460,7 @@ def check_c11(tier):
 def check_c20(tier):
     return check_simple("C20", "c20_animation", "c20", tier, 1500, 15000,
                         ["quantized_tracks", "raw_float_tracks", "integer_tracks", "timestamps_first",
-                         "timestamps_between", "timestamps_last", "tracks_0", "tracks_8"],
+                         "timestamps_between", "timestamps_last", "tracks_0", "tracks_8", "builtin_compression_off_raw_values"],
                         ["32-bit integer tracks whose values span INT32_MAX or more may be refused by the encoder "
                          "(counted as encode errors)"])
 
@@ -804,7 +814,7 @@ REPLAYERS = {
     "C01": [("geom_pbt", "c01")],
     "C04": [("geom_pbt", "c04")],
     "C07": [("geom_pbt", "c07")],
-    "C10": [("geom_pbt", "c10")],
+    "C10": [("geom_pbt", "c10"), ("c05_corpus", "c10")],
     "C12": [("geom_pbt", "c12")],
     "C08": [("c08_symbols", "c08")],
     "C09": [("geom_pbt", "c09")],
